@@ -15,7 +15,7 @@ import time
 import warnings
 
 
-def run(tier="quick", seed=0):
+def run(tier="quick", seed=0, only=None):
     import torch
     import gpytorch
     from gpytorch import kernels as K
@@ -42,6 +42,19 @@ def run(tier="quick", seed=0):
                 p.add_(0.3 * torch.randn_like(p))
         return k
 
+    class Rect21(K.Kernel):
+        """a user-style kernel with DIFFERENT numbers of outputs per input on the two sides (num_outputs_per_input returns a tuple):
+        rows 2i, 2i+1 are 1x and 2x the base covariance of point i"""
+        has_lengthscale = True
+
+        def num_outputs_per_input(self, x1, x2):
+            return (2, 1)
+
+        def forward(self, x1, x2, diag=False, **params):
+            base = self.covar_dist(x1.div(self.lengthscale), x2.div(self.lengthscale), square_dist=True).div(-2).exp()
+            res = torch.stack([base, 2 * base], dim=-2).reshape(*base.shape[:-2], 2 * base.size(-2), base.size(-1))
+            return res
+
     def kernels():
         yield "rbf", lambda **kw: K.RBFKernel(**kw), 1
         yield "matern_ard", lambda **kw: K.MaternKernel(nu=1.5, ard_num_dims=kw.pop("ard", 3), **kw), 1
@@ -50,6 +63,7 @@ def run(tier="quick", seed=0):
         yield "product", lambda **kw: K.RBFKernel(**kw) * K.PeriodicKernel(**kw), 1
         yield "multitask", lambda **kw: K.MultitaskKernel(K.RBFKernel(**kw), num_tasks=2, rank=1), 2  # task covariance shared across the batch
         yield "rbf_grad", lambda **kw: K.RBFKernelGrad(**kw), 4
+        yield "rect21", lambda **kw: Rect21(**kw), (2, 1)
 
     def dense_of(k, a, b, **kw):
         with gpytorch.settings.lazily_evaluate_kernels(False):
@@ -84,9 +98,9 @@ def run(tier="quick", seed=0):
             if i is Ellipsis:
                 return "..."
             if torch.is_tensor(i):
-                return str(i.tolist())
+                return "T(" + " ".join(str(v) for v in i.tolist()) + ")"
             return str(i)
-        return "[" + ", ".join(one(i) for i in ix) + "]"
+        return "[" + "; ".join(one(i) for i in ix) + "]"
 
     def compare_index(tag, lazy_fn, dense, ix):
         key = f"index/{tag}/{describe(ix)}"
@@ -96,13 +110,17 @@ def run(tier="quick", seed=0):
         except (IndexError, RuntimeError, ValueError) as e:
             want, want_err = None, e
         try:
-            got = td(lazy_fn()[ix])
+            got = lazy_fn()[ix]
             got_err = None
+            if want is not None and tuple(got.shape) == tuple(want.shape) and want.numel() == 0:
+                rec(key, True, "empty selection: shapes agree")  # nothing to evaluate (dependency code cannot densify empty operators)
+                return
+            got = td(got)
         except (IndexError, RuntimeError, ValueError) as e:
             got, got_err = None, e
         except Exception as e:  # noqa: BLE001
-            # any other exception: inside gpytorch code = the real code fails on this expression; inside the dependency only (e.g.
-            # linear_operator's sparse interpolation on an EMPTY selection) = outside this property's code, counted as skipped
+            # any other exception: inside gpytorch code = the real code fails on this expression; inside the dependency only =
+            # outside this property's code, counted as skipped
             from engine.runner import classify_replay_exception
             r = classify_replay_exception(e)
             if r.get("violates"):
@@ -122,8 +140,10 @@ def run(tier="quick", seed=0):
             + ("" if tuple(got.shape) != tuple(want.shape) or want.numel() == 0 else f", max abs diff {(got - want).abs().max().item():.2e}"), {"index": describe(ix), "kernel": tag})
 
     n1, n2, d = 3, 2, 3
-    for bshape in (torch.Size([]), torch.Size([2])):
+    for bshape in ((torch.Size([]), torch.Size([2])) if only in (None, "index") else ()):
         for name, mk, t in kernels():
+            if only == "index" and name not in ("rbf", "multitask", "sum", "rect21"):
+                continue
             if name == "rbf_grad" and len(bshape) and tier == "quick":
                 continue
             k = randomize(mk(batch_shape=bshape) if name != "matern_ard" else mk(batch_shape=bshape)).double()
@@ -135,36 +155,38 @@ def run(tier="quick", seed=0):
             rec(f"lazy_is_lazy/{tag}", isinstance(lazy, LazyEvaluatedKernelTensor), type(lazy).__name__)
             rec(f"lazy_equals_eager/{tag}", close(lazy.to_dense(), dense), "to_dense of the lazily evaluated kernel tensor vs eager evaluation")
             rec(f"lazy_shape/{tag}", tuple(lazy.shape) == tuple(dense.shape), f"{tuple(lazy.shape)} vs {tuple(dense.shape)}")
-            rec(f"transpose/{tag}", close(dense_of(k, x2, x1), dense.transpose(-1, -2)), "K(x2, x1) vs K(x1, x2)^T")
-            rec(f"lazy_transpose/{tag}", close(td(lazy_of(k, x1, x2).mT), dense.mT), "lazy.mT vs dense.mT")
-            dsq = dense_of(k, x1, x1)
-            try:
-                dg = dense_of(k, x1, x1, diag=True)
-                rec(f"diag/{tag}", close(dg, torch.diagonal(dsq, dim1=-2, dim2=-1)), "diag=True vs diagonal of the full matrix")
-                rec(f"lazy_diagonal/{tag}", close(lazy_of(k, x1, x1).diagonal(dim1=-1, dim2=-2), torch.diagonal(dsq, dim1=-2, dim2=-1)), "lazy.diagonal() vs dense diagonal")
-            except Exception as e:  # noqa: BLE001
-                rec(f"diag/{tag}", False, f"{type(e).__name__}: {str(e)[:200]}")
-            # blocks on stacked inputs
-            xs = torch.cat([x1, x2], dim=-2)
-            full = dense_of(k, xs, xs)
-            r1, r2 = n1 * t, n2 * t
-            rec(f"blocks/{tag}", close(full[..., :r1, r1:], dense) and close(full[..., :r1, :r1], dsq) and close(full[..., r1:, :r1], dense_of(k, x2, x1)),
-                "blocks of K on stacked inputs vs separately computed blocks")
-            # repeat / unsqueeze
-            reps = (*([1] * len(bshape)), 2, 3)
-            rec(f"lazy_repeat/{tag}", close(td(lazy_of(k, x1, x2).repeat(*reps)), dense.repeat(*reps)), f"repeat{reps}")
-            rec(f"lazy_unsqueeze/{tag}", close(td(lazy_of(k, x1, x2).unsqueeze(0)), dense.unsqueeze(0)), "unsqueeze(0)")
+            if not isinstance(t, tuple):  # square-per-point kernels only
+                rec(f"transpose/{tag}", close(dense_of(k, x2, x1), dense.transpose(-1, -2)), "K(x2, x1) vs K(x1, x2)^T")
+                rec(f"lazy_transpose/{tag}", close(td(lazy_of(k, x1, x2).mT), dense.mT), "lazy.mT vs dense.mT")
+                dsq = dense_of(k, x1, x1)
+                try:
+                    dg = dense_of(k, x1, x1, diag=True)
+                    rec(f"diag/{tag}", close(dg, torch.diagonal(dsq, dim1=-2, dim2=-1)), "diag=True vs diagonal of the full matrix")
+                    rec(f"lazy_diagonal/{tag}", close(lazy_of(k, x1, x1).diagonal(dim1=-1, dim2=-2), torch.diagonal(dsq, dim1=-2, dim2=-1)), "lazy.diagonal() vs dense diagonal")
+                except Exception as e:  # noqa: BLE001
+                    rec(f"diag/{tag}", False, f"{type(e).__name__}: {str(e)[:200]}")
+                # blocks on stacked inputs
+                xs = torch.cat([x1, x2], dim=-2)
+                full = dense_of(k, xs, xs)
+                tr_, tc_ = t if isinstance(t, tuple) else (t, t)
+                r1, r2 = n1 * tr_, n2 * tc_
+                rec(f"blocks/{tag}", close(full[..., :r1, r1:], dense) and close(full[..., :r1, :r1], dsq) and close(full[..., r1:, :r1], dense_of(k, x2, x1)),
+                    "blocks of K on stacked inputs vs separately computed blocks")
+                # repeat / unsqueeze
+                reps = (*([1] * len(bshape)), 2, 3)
+                rec(f"lazy_repeat/{tag}", close(td(lazy_of(k, x1, x2).repeat(*reps)), dense.repeat(*reps)), f"repeat{reps}")
+                rec(f"lazy_unsqueeze/{tag}", close(td(lazy_of(k, x1, x2).unsqueeze(0)), dense.unsqueeze(0)), "unsqueeze(0)")
             # ---- index expressions
             R, C = dense.shape[-2], dense.shape[-1]
             small = tier == "quick"
             ri, rs, rt = axis_vocab(R, small)
             ci, cs, ct = axis_vocab(C, small)
             lf = lambda: lazy_of(k, x1, x2)  # noqa: E731  (a fresh lazy tensor each time: no caches carried between expressions)
-            pre = [()] if not len(bshape) else [(0,), (-1,), (slice(None),), (slice(0, 1),), (torch.tensor([1, 0]),)]
+            pre = [()] if not len(bshape) else ([(0,), (slice(None),), (torch.tensor([1, 0]),)] if small else [(0,), (-1,), (slice(None),), (slice(0, 1),), (torch.tensor([1, 0]),)])
             for pb in pre:
                 lead = pb
                 # slices on both axes (the lazy fast path), incl. the Ellipsis form
-                for a, b_ in itertools.product(rs, cs):
+                for a, b_ in itertools.product(rs, cs[:: 2 if small and len(bshape) else 1]):
                     compare_index(tag, lf, dense, (*lead, a, b_))
                 if not len(bshape) or pb == (slice(None),):
                     for a, b_ in itertools.product(rs[:: 3 if small else 1], cs[:: 3 if small else 1]):
@@ -180,7 +202,7 @@ def run(tier="quick", seed=0):
                 for a in ri[:3] + rs[:5] + rt[:1]:
                     compare_index(tag, lf, dense, (*lead, a))
     # ---- active_dims
-    for bshape in (torch.Size([]), torch.Size([2])):
+    for bshape in ((torch.Size([]), torch.Size([2])) if only in (None, "active_dims") else ()):
         ad = [0, 2]
         for name, mk in (("rbf", lambda **kw: K.RBFKernel(**kw)), ("matern_ard", lambda **kw: K.MaternKernel(nu=2.5, ard_num_dims=2, **kw)),
                          ("scale_rbf", lambda **kw: K.ScaleKernel(K.RBFKernel(**{q: v for q, v in kw.items() if q != "active_dims"}), **kw)),
@@ -217,7 +239,7 @@ def run(tier="quick", seed=0):
                 except Exception as e:  # noqa: BLE001
                     rec(f"active_dims/expand_batch/{tag}", False, f"{type(e).__name__}: {str(e)[:300]}", {"kernel": name, "active_dims": ad})
     # ---- kernel[i] / expand_batch without active_dims (batch parameters sliced, source kernel untouched)
-    for name, mk, t in kernels():
+    for name, mk, t in (kernels() if only in (None, "active_dims") else ()):
         k = randomize(mk(batch_shape=torch.Size([2]))).double()
         x1 = torch.randn(2, n1, d, dtype=D)
         x2 = torch.randn(2, n2, d, dtype=D)
